@@ -43,9 +43,22 @@ impl Display for CompoundKind {
     }
 }
 
-#[derive(Debug, Eq, PartialEq, Clone, Default)]
+#[derive(Eq, PartialEq, Clone, Default)]
 pub struct Bind {
     bound_generics: HashMap<Identifier, Arc<XType>>,
+}
+
+impl Debug for Bind {
+    // rendered in a fixed order: this text ends up in compilation error messages
+    fn fmt(&self, f: &mut Formatter<'_>) -> std::fmt::Result {
+        let mut entries = self
+            .bound_generics
+            .iter()
+            .map(|(k, v)| (format!("{k:?}"), v))
+            .collect::<Vec<_>>();
+        entries.sort_by(|a, b| a.0.cmp(&b.0));
+        f.debug_map().entries(entries).finish()
+    }
 }
 
 impl Bind {
@@ -95,11 +108,14 @@ where
     }
 }
 
-#[derive(Clone, Debug, Eq, PartialEq)]
+#[derive(Clone, derivative::Derivative, Eq, PartialEq)]
+#[derivative(Debug)]
 pub struct XCompoundSpec {
     pub(crate) name: Identifier,
     pub(crate) generic_names: Vec<Identifier>,
     pub(crate) fields: Vec<XCompoundFieldSpec>,
+    // derived from `fields`; left out of the rendering, whose order would otherwise vary from run to run
+    #[derivative(Debug = "ignore")]
     pub(crate) indices: HashMap<Identifier, usize>,
 }
 
